@@ -99,6 +99,10 @@ def tasks(tier):
             out.append((dim, 'scalar', [(0, l), (2, 1)], None, ((2, 2), None)))
             out.append((dim, 'ldot-rdot', [(0, l), (1, 1)], None, ((2, 2), None)))
             out.append((dim, 'misc', [(-1, l), (0, 1), (3, 2)], None, ((2, 2), None)))
+        # the class keeps terms in whatever order it is given (constructor, ldot/rdot, slices, HDF5 loading in key order): operations must
+        # not rely on increasing n
+        out.append((dim, 'misc', [(3, 1), (-1, 0), (0, 2)], None, ((2, 2), None)))
+        out.append((dim, 'misc', [(2, 0), (-1, 1), (1, 1), (0, 0)], None, ((2, 2), None)))
     return out
 
 
